@@ -62,6 +62,9 @@ func (E *Engine) declSums() {
 	// linearity and point-wise order (witness forms)
 	D.Fun("bsum_lin", []Sort{SInt, sArrIS, sArrII, sArrII, sArrII}, SInt)
 	D.Axiom("(forall ((n Int) (D (Array Int Str)) (A (Array Int Int)) (B (Array Int Int)) (C (Array Int Int)) (d Str)) (! (=> (not (= (bsum n D A d) (- (bsum n D B d) (bsum n D C d)))) (let ((w (bsum_lin n D A B C))) (and (<= 0 w) (< w n) (not (= (select A w) (- (select B w) (select C w))))))) :pattern ((bsum_lin n D A B C) (bsum n D A d))))")
+	// linearity across two denom arrays that agree on the prefix
+	D.Fun("bsum_lin2", []Sort{SInt, sArrIS, sArrII, sArrIS, sArrII, sArrII}, SInt)
+	D.Axiom("(forall ((n Int) (D2 (Array Int Str)) (A (Array Int Int)) (D (Array Int Str)) (B (Array Int Int)) (C (Array Int Int)) (d Str)) (! (=> (not (= (bsum n D2 A d) (- (bsum n D B d) (bsum n D C d)))) (let ((w (bsum_lin2 n D2 A D B C))) (and (<= 0 w) (< w n) (or (not (= (select D2 w) (select D w))) (not (= (select A w) (- (select B w) (select C w)))))))) :pattern ((bsum_lin2 n D2 A D B C) (bsum n D2 A d))))")
 	D.Fun("bsum_le", []Sort{SInt, sArrIS, sArrII, sArrII, SStr}, SInt)
 	D.Axiom("(forall ((n Int) (D (Array Int Str)) (A (Array Int Int)) (B (Array Int Int)) (d Str)) (! (=> (> (bsum n D A d) (bsum n D B d)) (let ((w (bsum_le n D A B d))) (and (<= 0 w) (< w n) (> (select A w) (select B w))))) :pattern ((bsum_le n D A B d))))")
 	D.Fun("hint", []Sort{SInt}, SBool)
@@ -232,6 +235,10 @@ func init() {
 	ghostFuns["use_diffA"] = func(ev *Evaluator, a []*Term) Val {
 		ev.E.declBucketSums(ev.M)
 		return App(SBool, "hint", App(SInt, "bsumA_diff", a...))
+	}
+	ghostFuns["use_lin2"] = func(ev *Evaluator, a []*Term) Val {
+		ev.E.declBucketSums(ev.M)
+		return App(SBool, "hint", App(SInt, "bsum_lin2", a...))
 	}
 	ghostFuns["use_lin"] = func(ev *Evaluator, a []*Term) Val {
 		ev.E.declBucketSums(ev.M)
